@@ -77,6 +77,22 @@ def signature_grid(rep, tier):
                        detail="re-emitted signature and binding of a call equal Python's (%d bare-star signatures are the known finding)" % (len(outs) - len(rest))))
 
 
+def body_args_grid(rep, tier):
+    """bounded stand-in for 'body(**args) ... run in the calling scope': what caller.body(...) binds for the args= of both call forms"""
+    from vrf.bounded import signature_grid as G
+    from vrf.propkit import pool_map
+    t0 = time.time()
+    cases = G.body_args_cases()
+    outs = [o for o in pool_map(G.run_body_args, cases) if o]
+    bound = "%d cases: 11 args= signatures / calls (positional, defaults, *rest, keyword-only, **kw) x {<%%ns:def args=>, <%%call args=>}, the same names also present in the context" % len(cases)
+    if outs:
+        rep.add(Result("C05.body-args-grid", VIOLATED, klass="B", backend="native-oracle", function="mako.parsetree:CallTag / CallNamespaceTag", bound=bound, evaluations=len(cases),
+                       detail="%s args=%r: %s" % (outs[0]["form"], outs[0]["args"], outs[0]["got"][:160]), witness=outs[0], replayed=True, replay={"failures": outs[:3]}, time_s=time.time() - t0))
+    else:
+        rep.add(Result("C05.body-args-grid", BOUNDED_OK, klass="B", backend="native-oracle", function="mako.parsetree:CallTag / CallNamespaceTag", bound=bound, evaluations=len(cases),
+                       time_s=time.time() - t0, detail="caller.body(...) binds the body's parameters as Python binds them; context values of the same names do not shadow them"))
+
+
 def run(rep, tier):
     rep.trust(*BASE_TRUST)
     rep.assume(*BASE_ASSUME)
@@ -85,5 +101,6 @@ def run(rep, tier):
     attr_mixtures(rep, tier)
     filter_once(rep, tier)
     signature_grid(rep, tier)
+    body_args_grid(rep, tier)
     from vrf.propkit import link_bounded_witness
     link_bounded_witness(rep, only=lambda r: "_parse_attributes" in r.oid or "write_def_finish" in r.oid)
